@@ -262,7 +262,8 @@ impl P16E1 {
                 (frac32 & 0x3FFF_FFFF) >> (reg_len + 1),
             )
         };
-        Self::from_bits(u_z)
+        // the sample must stay in [0, 1): values just below 1 would round up to ONE
+        Self::from_bits(if u_z > 0x3FFF { 0x3FFF } else { u_z })
     }
 }
 
